@@ -315,6 +315,17 @@ class ExecCore(object):
 
     def assign(self, tgt, v, st):
         """-> (normal states, raise outcomes)"""
+        if isinstance(tgt, _ItemsTarget):
+            snap_dv, vty, real = self._items_ctx
+            val = SV(snap_dv[v.term], vty)
+            st.assume(shape(st, val.term, vty))
+            ns, rs = self.assign(real.elts[0], v, st)
+            out, raises = [], list(rs)
+            for c in ns:
+                n2, r2 = self.assign(real.elts[1], val, c)
+                out.extend(n2)
+                raises.extend(r2)
+            return out, raises
         if isinstance(tgt, ast.Name):
             lt = self.contract.local_types.get(tgt.id) if self.contract else None
             if lt is not None:
@@ -399,11 +410,40 @@ class ExecCore(object):
 
     def st_For(self, s, st):
         k, lspec = self.loop_spec(s)
+        it = s.iter
+        # `for k, v in d.items()` / `for k, v in list(d.items())`: iterate the keys of a snapshot of d, v = snapshot[k]
+        inner = it
+        if isinstance(inner, ast.Call) and isinstance(inner.func, ast.Name) and inner.func.id == 'list' and len(inner.args) == 1:
+            inner = inner.args[0]
+        if isinstance(inner, ast.Call) and isinstance(inner.func, ast.Attribute) and inner.func.attr == 'items' and \
+                not inner.args and isinstance(s.target, ast.Tuple) and len(s.target.elts) == 2:
+            normals, raises = self.ev(inner.func.value, st)
+            outs = list(raises)
+            for n, dv in normals:
+                dty = Ty.strip_opt(dv.ty)
+                if self.dictlike(dty) and not (dv.has_py and isinstance(dv.py, dict)):
+                    outs.extend(self.for_loop(s, n, dv, k, lspec, items=True))
+                else:
+                    n2, r2 = self.ev(s.iter, n)
+                    outs.extend(r2)
+                    for n3, itv in n2:
+                        outs.extend(self.for_loop(s, n3, itv, k, lspec))
+            return outs
         normals, raises = self.ev(s.iter, st)
         outs = list(raises)
         for n, itv in normals:
             outs.extend(self.for_loop(s, n, itv, k, lspec))
         return outs
+
+    def dictlike(self, ty):
+        if isinstance(ty, Ty.TDict):
+            return True
+        if isinstance(ty, Ty.TInst):
+            try:
+                return issubclass(front.cls_obj(ty.cls), dict)
+            except Exception:
+                return False
+        return False
 
     def iter_view(self, st, itv):
         """-> ('const', [SV...]) | ('seq', z3 Seq term, elem type, extra assumptions)"""
@@ -441,8 +481,16 @@ class ExecCore(object):
     def is_module_const(self, sv):
         return getattr(sv, 'has_py', False)
 
-    def for_loop(self, s, st, itv, k, lspec):
-        view = self.iter_view(st, itv)
+    def for_loop(self, s, st, itv, k, lspec, items=False):
+        if items:
+            # snapshot of the mapping at loop entry: keys are iterated, the value is read from the snapshot
+            snap_dv = st.DV[va(itv.term)]
+            vty = itv.ty.v if isinstance(Ty.strip_opt(itv.ty), Ty.TDict) else Ty.ANY
+            kty = itv.ty.k if isinstance(Ty.strip_opt(itv.ty), Ty.TDict) else Ty.ANY
+            view = self.iter_view(st, SV(itv.term, Ty.TDict(kty, vty)))
+            self._items_ctx = (snap_dv, vty, s.target)
+            s = _ItemsFor(s)
+        view = view if items else self.iter_view(st, itv)
         if view[0] == 'const':
             return self.unrolled_for(s, st, view[1])
         if SP.BOUND[0] is not None:
@@ -465,7 +513,7 @@ class ExecCore(object):
         # 2. havoc what the body may change
         body_nodes = s.body
         h = st.copy()
-        self.havoc_for_loop(h, body_nodes + [s.target], lspec)
+        self.havoc_for_loop(h, body_nodes + [getattr(s, '_s', s).target], lspec)
         h.env[sname] = SeqHolder(seq, elty)
         ivar = fresh(iname, IntS)
         h.env[iname] = SV(VInt(ivar), Ty.INT)
@@ -867,6 +915,21 @@ class ExecCore(object):
         ev = SP.SpecEval(st, st.env, self.modname, old=old or self.old_state, result=result)
         ev.extra.update(self.let_values)
         return ev.bool(text)
+
+
+class _ItemsTarget(ast.AST):
+    _fields = ()
+
+
+class _ItemsFor(object):
+    """view of a `for k, v in d.items()` statement whose target is bound from (key, snapshot[key])"""
+    def __init__(self, s):
+        self._s = s
+        self.target = _ItemsTarget()
+        self.body, self.orelse = s.body, s.orelse
+
+    def __getattr__(self, name):
+        return getattr(self._s, name)
 
 
 class SeqHolder(object):
